@@ -1,3 +1,4 @@
+import TxV.Model.HsDesc
 /-
 Model of `TCPHiddenServiceEndpoint` (txtorcon/endpoints.py): the option validation of the constructor
 and `listen()` as a sequence of steps with a failure that can occur at each of them, after the repair
@@ -73,6 +74,44 @@ def listen (publicPort bound : Nat) (f : FailAt) : List Ev :=
 stopped in between): "already in the config" — a new local listener is bound and handed out, and Tor is told nothing.
 (Recorded as a known finding of C17: the forwarding still points at the old local port.) -/
 def listenAgain (publicPort bound : Nat) : List Ev := [.bound loopback bound, .ok publicPort]
+
+/-! ### `listen()` with the creating command and the descriptor wait spelled out
+
+The step `create` above lumps together "Tor refuses the command", "every upload failed" and "the connection is lost during
+the wait".  Here the wait is the model of C15 (`TxV.HsDesc`) run over the HS_DESC events Tor sends, the answer to the
+creating command (`reply`, accepted or refused) and a possible loss of the connection, in the order they happen. -/
+
+structure Wait where
+  hs : HsDesc.St
+  answered : Bool := false
+  result : Option Bool := none         -- `some true`: listen() resolved; `some false`: it failed
+  deriving DecidableEq, Repr
+
+/-- one happening while `listen()` is waiting (`cmdOk`: Tor accepts the creating command) -/
+def waitStep (cmdOk : Bool) (w : Wait) (i : HsDesc.In) : Wait :=
+  if w.result.isSome then w else
+  let hs := HsDesc.step w.hs i
+  let answered := w.answered || i = .reply
+  let result : Option Bool :=
+    if i = .lost then some false
+    else if answered && !cmdOk then some false
+    else if answered then (match hs.fired with
+      | some .ok => some true
+      | some .fail => some false
+      | none => none)
+    else none
+  { hs := hs, answered := answered, result := result }
+
+def waitRun (cmdOk : Bool) (w : Wait) (h : List HsDesc.In) : Wait := h.foldl (waitStep cmdOk) w
+
+/-- `listen()` up to and including the descriptor wait; `known0`: the service's address is known before the command is
+answered (a filesystem service whose directory already holds a hostname) -/
+def listenWith (publicPort bound : Nat) (known0 cmdOk : Bool) (h : List HsDesc.In) : List Ev :=
+  [.bound loopback bound, .create publicPort loopback bound] ++
+  match (waitRun cmdOk { hs := { awaitAll := false, known := known0 } } h).result with
+  | some true => [.ok publicPort]
+  | some false => [.closed bound, .fail]
+  | none => []
 
 /-- the listeners open after a trace -/
 def openAfter : List Ev → List Nat
